@@ -218,4 +218,300 @@ example : wREager.stopped = some .shutdown ∧ marketOf wREager.processed = wDsR
     wREager.eng.mv.seen = [none, none, some 2, none, some 4, none] ∧
     (cSummarise wREager.eng).pos = [1] := by decide
 
+
+/-! ## Long datasets (`longdata`): the digesting engine `lEngine` (Model/Backtest.lean, last section)
+
+Nothing above bounds the length of a dataset (`ds : List μ` is arbitrary in every theorem). What is
+bounded is what the correspondence can EXECUTE: the list-recording engine `cEngine` is quadratic in
+the dataset length. For datasets of 10^4 - 10^5 events the driver folds `lEngine` over the dataset
+instead; the theorems of this section say that this is the same observation, digested:
+* `long_market_view`, `long_digest_schedule_independent` - the digest (with the strategy's requests) is
+  a `MarketView`: under EVERY schedule that ends with `Shutdown` it equals the plain sequential fold
+  over the dataset, which is what the driver computes;
+* `long_digest_refines_recording` - that fold is exactly the digest of what `cEngine` records on the
+  same events (same strategy state, same requests; `seen` / `instSeen` folded by `SeqDig.step` /
+  `instStep`), and the account views coincide;
+* `long_digest_ok_iff_dataset` - `order=ok` with `n` events counted holds IF AND ONLY IF the processed
+  stream is the dataset (so a repeat, an omission, a swap, a truncation all show);
+* `long_digest_of_dataset`, `long_model_digest_clean` - on the dataset itself the cursor figures are
+  `dups = 0`, `skipped = 0`, `last = n-1`, for every `n` and every marker pattern. -/
+
+theorem long_market_view : MarketView lEngine LSettled lView := by
+  constructor
+  · intro s e hs
+    cases e with
+    | shutdown => exact hs
+    | market m =>
+      intro fuel
+      simp only [lEngine, lProcess]
+      exact stratEmit_fix _ _ (by omega) fuel
+    | account a =>
+      intro fuel
+      simp only [lEngine, lProcess, hs _]
+  · intro s a hs
+    simp only [lEngine, lProcess, lView, hs _]
+  · intro s _; rfl
+  · intro s s' m _ _ heq
+    simp only [lView, Prod.mk.injEq] at heq
+    obtain ⟨hp, hm, hd⟩ := heq
+    simp only [lEngine, lProcess, lView, hp, hm, hd]
+
+theorem long_init_settled (p : LParams) (plan : List PlanItem) : LSettled (lEng0 p plan) := by
+  apply stratEmit_of_done
+  unfold Done
+  split
+  · trivial
+  · right
+    simp only [lEng0, cEng0, MView.strip, List.getElem?_replicate]; split <;> rfl
+
+theorem long_digest_schedule_independent (X : Exchange χ Req AccEv) (exch0 : χ) (p : LParams)
+    (plan : List PlanItem) (ds : List LEv) (acc0 : List AccEv) (acts : List Act) :
+    let s := run lEngine X (BT.init (lEng0 p plan) exch0 ds acc0) acts
+    s.stopped = some .shutdown → lView s.eng = lView (marketFold lEngine (lEng0 p plan) ds) := by
+  intro s hs
+  have hown := own_run lEngine X (lEng0 p plan) acts (BT.init (lEng0 p plan) exch0 ds acc0) rfl
+  have hinv := inv_run lEngine X ds acts _ (inv_init (lEng0 p plan) exch0 ds acc0)
+  rw [hown, marketView_fold lEngine LSettled lView long_market_view s.processed _ _
+    (long_init_settled p plan) (long_init_settled p plan) rfl, hinv.clean hs]
+
+theorem stratEmit_strip (fuel : Nat) (v : MView) :
+    stratEmit fuel v.strip = ((stratEmit fuel v).1.strip, (stratEmit fuel v).2) := by
+  induction fuel generalizing v with
+  | zero => rfl
+  | succ fuel ih =>
+    rw [stratEmit, stratEmit]
+    cases hitem : v.plan[v.next]? with
+    | none => simp only [MView.strip, hitem]
+    | some item =>
+      by_cases ht : item.trigger ≤ v.nMkt
+      · cases hp : (v.price[item.inst]?).join with
+        | none => simp only [MView.strip, hitem, ht, hp, if_true]
+        | some px =>
+          have := ih { v with next := v.next + 1, reqs := v.reqs ++ [⟨v.next, item, px⟩] }
+          simp only [MView.strip] at this
+          simp only [MView.strip, hitem, ht, hp, if_true, this]
+      · simp only [MView.strip, hitem, ht, if_false]
+
+theorem stratEmit_seen (fuel : Nat) (v : MView) :
+    (stratEmit fuel v).1.seen = v.seen ∧ (stratEmit fuel v).1.instSeen = v.instSeen := by
+  induction fuel generalizing v with
+  | zero => exact ⟨rfl, rfl⟩
+  | succ fuel ih =>
+    rw [stratEmit]
+    split
+    · exact ⟨rfl, rfl⟩
+    · split
+      · split
+        · exact ⟨rfl, rfl⟩
+        · simp only; exact ih _
+      · exact ⟨rfl, rfl⟩
+
+theorem strip_onMarket (v : MView) (m : MktEv) : (v.onMarket m).strip = v.strip.onMarketCore m := by
+  unfold MView.onMarket MView.onMarketCore MView.strip
+  split <;> rfl
+
+/-- digest of an instrument's recorded ids -/
+def idsDigest (ids : List Nat) : Nat × Nat := ids.foldl instStep (0, 0)
+
+theorem map_modifyAt_snoc (L : List (List Nat)) (i x : Nat) :
+    (modifyAt L i (· ++ [x])).map idsDigest = modifyAt (L.map idsDigest) i (instStep · x) := by
+  unfold modifyAt
+  induction L generalizing i with
+  | nil => simp
+  | cons a L ih =>
+    cases i with
+    | zero => simp [idsDigest, List.foldl_append]
+    | succ i => simp [ih]
+
+/-- the relation between the digesting engine and the list-recording engine fed the same events -/
+def Refines (p : LParams) (l : LEng) (c : CEng) : Prop :=
+  l.p = p ∧ l.mv = c.mv.strip ∧ l.dg.seq = c.mv.seen.foldl (SeqDig.step p) SeqDig.init ∧
+  l.dg.inst = c.mv.instSeen.map idsDigest ∧ l.av = c.av
+
+theorem refines_step (p : LParams) (l : LEng) (c : CEng) (e : LEv) (h : Refines p l c) :
+    Refines p (lProcess l (.market e)).1 (cProcess c (.market e.ev)).1 ∧
+    (lProcess l (.market e)).2 = (cProcess c (.market e.ev)).2 := by
+  obtain ⟨hp, hmv, hseq, hinst, hav⟩ := h
+  have hs := stratEmit_strip ((c.mv.onMarket e.ev).plan.length + 1) (c.mv.onMarket e.ev)
+  have hseen := stratEmit_seen ((c.mv.onMarket e.ev).plan.length + 1) (c.mv.onMarket e.ev)
+  have hcore : l.mv.onMarketCore e.ev = (c.mv.onMarket e.ev).strip := by rw [hmv, strip_onMarket]
+  have hlen : ((c.mv.onMarket e.ev).strip).plan.length = (c.mv.onMarket e.ev).plan.length := rfl
+  simp only [lProcess, cProcess, hcore, hlen, hs]
+  refine ⟨⟨hp, rfl, ?_, ?_, hav⟩, trivial⟩
+  · simp only [hseen.1, Dig.step, hp]
+    unfold MView.onMarket
+    split <;> simp [hseq, List.foldl_append]
+  · simp only [hseen.2, Dig.step]
+    unfold MView.onMarket
+    split
+    · simp [hinst]
+    · simp only [hinst, map_modifyAt_snoc]
+
+theorem refines_fold (p : LParams) (ds : List LEv) (l : LEng) (c : CEng) (h : Refines p l c) :
+    Refines p (marketFold lEngine l ds) (marketFold cEngine c (ds.map (·.ev))) := by
+  induction ds generalizing l c with
+  | nil => exact h
+  | cons e ds ih =>
+    simp only [marketFold, List.map_cons, List.foldl_cons] at ih ⊢
+    exact ih _ _ (refines_step p l c e h).1
+
+theorem long_digest_refines_recording (p : LParams) (plan : List PlanItem) (ds : List LEv) :
+    let l := marketFold lEngine (lEng0 p plan) ds
+    let c := marketFold cEngine (cEng0 p.k plan) (ds.map (·.ev))
+    l.mv = c.mv.strip ∧ l.dg.seq = c.mv.seen.foldl (SeqDig.step p) SeqDig.init ∧
+    l.dg.inst = c.mv.instSeen.map idsDigest ∧ l.av = c.av := by
+  have h0 : Refines p (lEng0 p plan) (cEng0 p.k plan) := by
+    refine ⟨rfl, rfl, rfl, ?_, rfl⟩
+    simp [lEng0, Dig.init, cEng0, idsDigest]
+  exact (refines_fold p ds _ _ h0).2
+
+theorem seqDig_step_cnt (p : LParams) (d : SeqDig) (tok : Option Nat) : (d.step p tok).cnt = d.cnt + 1 := by
+  unfold SeqDig.step
+  cases tok <;> simp only <;> split <;> rfl
+
+/-- a step keeps `firstBad = none` exactly when the token is the dataset's element at this index -/
+theorem seqDig_step_ok (p : LParams) (d : SeqDig) (tok : Option Nat) :
+    (d.step p tok).firstBad = none ↔ (d.firstBad = none ∧ d.cnt < p.n ∧ tok = p.tok d.cnt) := by
+  have key : (if (!(decide (d.cnt < p.n) && tok == p.tok d.cnt) && d.firstBad.isNone) = true then some d.cnt
+      else d.firstBad) = none ↔ (d.firstBad = none ∧ d.cnt < p.n ∧ tok = p.tok d.cnt) := by
+    cases hfb : d.firstBad <;> by_cases h1 : d.cnt < p.n <;> by_cases h2 : tok = p.tok d.cnt <;> simp [h1, h2]
+  unfold SeqDig.step
+  cases tok <;> simp only <;> split <;> exact key
+
+theorem seqDig_fold_cnt (p : LParams) (l : List (Option Nat)) (d : SeqDig) :
+    (l.foldl (SeqDig.step p) d).cnt = d.cnt + l.length := by
+  induction l generalizing d with
+  | nil => rfl
+  | cons t l ih => simp only [List.foldl_cons, ih, seqDig_step_cnt, List.length_cons]; omega
+
+theorem seqDig_fold_ok (p : LParams) (l : List (Option Nat)) (d : SeqDig) :
+    (l.foldl (SeqDig.step p) d).firstBad = none ↔
+      (d.firstBad = none ∧ ∀ j (h : j < l.length), d.cnt + j < p.n ∧ l[j] = p.tok (d.cnt + j)) := by
+  induction l generalizing d with
+  | nil => simp
+  | cons t l ih =>
+    simp only [List.foldl_cons, ih, seqDig_step_ok, seqDig_step_cnt, List.length_cons]
+    constructor
+    · rintro ⟨⟨h0, h1, h2⟩, h3⟩
+      refine ⟨h0, ?_⟩
+      intro j hj
+      cases j with
+      | zero => exact ⟨h1, by simpa using h2⟩
+      | succ j =>
+        have := h3 j (by omega)
+        simp only [List.getElem_cons_succ]
+        exact ⟨by omega, by rw [this.2]; congr 1; omega⟩
+    · rintro ⟨h0, h3⟩
+      refine ⟨⟨h0, ?_, ?_⟩, ?_⟩
+      · have := (h3 0 (by omega)).1; omega
+      · have := (h3 0 (by omega)).2; simpa using this
+      · intro j hj
+        have := h3 (j + 1) (by omega)
+        simp only [List.getElem_cons_succ] at this
+        exact ⟨by omega, by rw [this.2]; congr 1; omega⟩
+
+/-- `order=ok` with `n` events processed says exactly: the processed stream IS the dataset. -/
+theorem long_digest_ok_iff_dataset (p : LParams) (l : List (Option Nat)) :
+    let d := l.foldl (SeqDig.step p) SeqDig.init
+    (d.firstBad = none ∧ d.cnt = p.n) ↔ l = (List.range p.n).map p.tok := by
+  intro d
+  have hc : d.cnt = l.length := by simp [d, seqDig_fold_cnt, SeqDig.init]
+  have hok := seqDig_fold_ok p l SeqDig.init
+  simp only [SeqDig.init, Nat.zero_add, true_and] at hok
+  constructor
+  · rintro ⟨hfb, hn⟩
+    apply List.ext_getElem
+    · simp; omega
+    · intro j h1 h2
+      simp [(hok.mp hfb j h1).2]
+  · intro hl
+    have hlen : l.length = p.n := by rw [hl]; simp
+    refine ⟨hok.mpr ?_, by omega⟩
+    intro j hj
+    refine ⟨by omega, ?_⟩
+    simp [hl]
+
+/-- the recorder token of a dataset element -/
+def tokOf (e : LEv) : Option Nat := if e.ev.marker then none else some e.ev.id
+
+/-- On a prefix of the dataset the digest is clean: `m` tokens counted, the cursor at `m`, no index
+differs, nothing counted twice, nothing jumped over. -/
+theorem long_digest_of_dataset (p : LParams) (m : Nat) (hm : m ≤ p.n) :
+    let d := ((List.range m).map p.tok).foldl (SeqDig.step p) SeqDig.init
+    d.cnt = m ∧ d.expect = m ∧ d.dups = 0 ∧ d.skipped = 0 ∧ d.firstBad = none ∧ d.items + d.markers = m := by
+  induction m with
+  | zero => simp [SeqDig.init]
+  | succ m ih =>
+    have ih := ih (by omega)
+    simp only [List.range_succ, List.map_append, List.foldl_append, List.map_cons, List.map_nil,
+      List.foldl_cons, List.foldl_nil]
+    generalize ((List.range m).map p.tok).foldl (SeqDig.step p) SeqDig.init = d at ih
+    obtain ⟨h1, h2, h3, h4, h5, h6⟩ := ih
+    have hlt : m < p.n := by omega
+    unfold SeqDig.step LParams.tok
+    by_cases hmk : p.isMarker m
+    · simp [hmk, h1, h2, h3, h4, h5, hlt]; omega
+    · simp [hmk, h1, h2, h3, h4, h5, hlt]; omega
+
+theorem genData_tokens (p : LParams) : (genData p).map tokOf = (List.range p.n).map p.tok := by
+  simp only [genData, List.map_map]
+  apply List.map_congr_left
+  intro pos _
+  simp only [Function.comp, tokOf, genEv, LParams.tok]
+  split <;> simp [MktEv.reconnecting, MktEv.trade]
+
+/-- the digesting engine's sequence digest is the fold of `SeqDig.step` over the tokens it was fed -/
+theorem long_seq_digest_is_fold (ds : List LEv) (l : LEng) :
+    (marketFold lEngine l ds).dg.seq = (ds.map tokOf).foldl (SeqDig.step l.p) l.dg.seq ∧
+    (marketFold lEngine l ds).p = l.p := by
+  induction ds generalizing l with
+  | nil => exact ⟨rfl, rfl⟩
+  | cons e ds ih =>
+    simp only [marketFold, List.foldl_cons, List.map_cons] at ih ⊢
+    have := ih (lEngine.process l (.market e)).1
+    have hp : (lEngine.process l (.market e)).1.p = l.p := rfl
+    have hs : (lEngine.process l (.market e)).1.dg.seq = l.dg.seq.step l.p (tokOf e) := by
+      simp only [lEngine, lProcess, Dig.step, tokOf]
+      split <;> rfl
+    rw [hp, hs] at this
+    exact this
+
+/-- The model side of a `longdata` run: whatever the plan, the engine that was fed the generated dataset
+holds the clean digest (`lseen .. n=<n> order=ok dups=0 skipped=0 last=<n-1>`). -/
+theorem long_model_digest_clean (p : LParams) (plan : List PlanItem) :
+    let d := (marketFold lEngine (lEng0 p plan) (genData p)).dg.seq
+    d.cnt = p.n ∧ d.expect = p.n ∧ d.dups = 0 ∧ d.skipped = 0 ∧ d.firstBad = none := by
+  intro d
+  have h := (long_seq_digest_is_fold (genData p) (lEng0 p plan)).1
+  rw [genData_tokens] at h
+  have hc := long_digest_of_dataset p p.n (Nat.le_refl _)
+  simp only at hc
+  have h0 : (lEng0 p plan).dg.seq = SeqDig.init := rfl
+  have hp0 : (lEng0 p plan).p = p := rfl
+  rw [h0, hp0] at h
+  simp only [d, h]
+  exact ⟨hc.1, hc.2.1, hc.2.2.1, hc.2.2.2.1, hc.2.2.2.2.1⟩
+
+/-! ### Non-vacuity of the long-dataset section -/
+
+/-- 10 stream events over 2 instruments, markers at positions 1, 5, 9 -/
+def wP : LParams := ⟨10, 2, 4, 1, 7, 1⟩
+
+example : (genData wP).map tokOf = [some 0, none, some 2, some 3, some 4, none, some 6, some 7, some 8, none] := by
+  decide
+/-- intact run: the digest the spec demands, and the strategy bought on the first Item -/
+example : (marketFold lEngine (lEng0 wP wPlan) (genData wP)).dg.seq = ⟨10, 7, 3, 10, 0, 0, none⟩ ∧
+    (marketFold lEngine (lEng0 wP wPlan) (genData wP)).mv.reqs = [⟨0, ⟨1, 0, .buy, 1⟩, 50⟩] := by decide
+/-- element 4 fed twice (what a block-wise clone with an inclusive end does): one repeat, first differing index 5 -/
+example : ([some 0, none, some 2, some 3, some 4, some 4, none, some 6, some 7, some 8, none].foldl
+    (SeqDig.step wP) SeqDig.init) = ⟨11, 8, 3, 10, 1, 0, some 5⟩ := by decide
+/-- a marker fed twice -/
+example : ([some 0, none, none, some 2].foldl (SeqDig.step wP) SeqDig.init) = ⟨4, 2, 2, 3, 1, 0, some 2⟩ := by decide
+/-- element 3 dropped, and the stream stops after position 6: 1 + 3 positions not reached -/
+example : let d := [some 0, none, some 2, some 4, none, some 6].foldl (SeqDig.step wP) SeqDig.init
+    d = ⟨6, 4, 2, 7, 0, 1, some 3⟩ ∧ d.skipped + (wP.n - d.expect) = 4 := by decide
+/-- the refinement on a concrete run: the list-recording engine's `seen`, digested -/
+example : (marketFold cEngine (cEng0 2 wPlan) ((genData wP).map (·.ev))).mv.seen.foldl (SeqDig.step wP) SeqDig.init
+    = ⟨10, 7, 3, 10, 0, 0, none⟩ := by decide
+
 end BarterModel.Props.C20
